@@ -33,5 +33,10 @@ class RC(Persistent):
         CALLS.append((old['v'], committed['v'], new['v']))
         r = rc_resolve(old['v'], committed['v'], new['v'])
         if r is None:
+            # either way the storage must treat the conflict as unresolvable (and nothing else):
+            # a resolver may fail with an exception of its own, e.g. AttributeError from a per-field
+            # merge rule looked up with getattr
+            if (old['v'] + committed['v'] + new['v']) % 2:
+                raise AttributeError('no merge rule for this state')
             raise ConflictError
         return {'v': r}
